@@ -1,4 +1,5 @@
 import CDVProofs.FullRT
+import CDVProofs.Props.C01
 import CDVProofs.FullRT2
 /-! # C01 — `CodeData.from_code(c).to_code()` is `c`, at every nesting depth -/
 namespace CDV.Props.C01
@@ -109,5 +110,35 @@ example : AllOK .v38 exT 2 exOuter ∧ (toCodeDataFuel .v38 exT exF 2 exOuter).t
   have : k = exInner := by simpa [exOuter, RawCode.consts, CDV.Props.C14.rawCodesOf] using hk
   subst this
   exact ⟨ex_level_inner, by intro k hk; simp [exInner, RawCode.consts, CDV.Props.C14.rawCodesOf] at hk⟩
+
+/-! ## `C01_full` (byte-equality of the line table included) is false -/
+
+def exT2 : OpTable := ⟨(List.range 160).map fun op => if op == 100 then .const else if op == 144 then .ext else if op == 113 then .jabs
+  else if op < 90 then .noarg else .raw⟩
+/-- `EXTENDED_ARG 0; JUMP_ABSOLUTE 4; LOAD_CONST None; RETURN_VALUE` with the line table `(0,+1),(2,-1),(2,+5)`: the second
+    entry's address lies inside the first instruction, after its prefix — the layout of the known finding
+    `C01:lnotab-entry-inside-instruction` (there produced by the 3.8/3.9 peephole pass) -/
+def exLT : RawCode := .mk 0 0 0 0 1 0x40 1 [144, 0, 113, 4, 100, 0, 83, 0] [0, 1, 2, 255, 2, 5] (exN "m.py") (exN "<module>") [] [] [] []
+  [.inner .none]
+def ltOf : RawCode → List Nat
+  | .mk _ _ _ _ _ _ _ _ lt _ _ _ _ _ _ _ => lt
+def codeOf : RawCode → List Nat
+  | .mk _ _ _ _ _ _ _ code _ _ _ _ _ _ _ _ => code
+
+/-- the model's round trip on the witness: `co_code` comes back byte for byte, the line table comes back as `(0,+1),(4,+4)` -/
+theorem exLT_roundtrip : ((toCodeData .v38 exT2 exF exLT).toOption.bind (fun d => (fromCodeData .v38 exF d).toOption)).map
+    (fun c => (codeOf c, ltOf c)) = some ([144, 0, 113, 4, 100, 0, 83, 0], [0, 1, 4, 4]) := by decide +kernel
+
+/-- **The byte-exact statement is false** (which is why it is not claimed): the witness decodes and re-encodes to a
+    different `co_lnotab`.  The same layout is replayed on the implementation by the known finding of C01. -/
+theorem C01_full_false : ¬ C01_full .v38 exT2 exF := by
+  intro hfull
+  have hw := exLT_roundtrip
+  cases hd : toCodeData .v38 exT2 exF exLT with
+  | error e => rw [hd] at hw; simp [Except.toOption] at hw
+  | ok d =>
+    have h2 := hfull exLT d hd
+    rw [hd] at hw
+    simp [Except.toOption, h2, ltOf, codeOf, exLT] at hw
 
 end CDV.Props.C01
